@@ -337,7 +337,7 @@ func (w *c07World) reuse(slot int, src *c07Conn) *c07Conn {
 func (w *c07World) adapterCleanup(c *c07Conn, why string) {
 	_, known := w.sm.GetConnection(c.connID)
 	_ = w.sm.CloseConnection(c.connID)
-	if known && !w.conc && !c.srv.IsClosed() {
+	if known && !w.conc && !c.shared.Load() && !c.srv.IsClosed() {
 		w.run.Violation("C07:closeconnection-left-transport-open", map[string]any{"conn": c.connID, "trace": w.tail()})
 	}
 	c.srv.Close()
